@@ -4,6 +4,18 @@ import json, os, subprocess
 HERE = os.path.dirname(os.path.dirname(os.path.abspath(__file__)))
 
 CHECKS = {
+ "C04": ("fault_enumeration", "fault enumeration under controlled schedules (in-process: fault kind x graph position x gate schedules, verdict monitor + bytes-on-success) and real OS fault injection through the CLI (/dev/full symlink -> ENOSPC at flush, RLIMIT_FSIZE -> EFBIG, EISDIR, signal-killed command) with exit-status monitor",
+         "Each fault is placed in every vertex of every DAG on <=3 files, requested directly / only through dependencies / not at all, and executed under every gate schedule; OS-level faults are real (no injection hook) and exercised with several thread counts and seeded hook delays.",
+         "Faults the OS cannot produce here (EIO, permissions as root) are not covered; quick samples 1/5 of the 3-file product.", "DESIGN.md §4.7, §5 C04"),
+ "C11": ("exploration", "observed-set monitor: which outputs appear (build), which planted outputs disappear (clean), which per-source marker commands run (build, verify), compared with the set computed by an independent reading of the input rule; trees with all name shapes x dotted stems x look-alikes, input aliases, recursion, base != cwd",
+         "The processed set is observed from effects of real runs, never from internal state; expected set computed by the harness's own rule; output names/bytes cross-checked with the reference model.",
+         "D10 (one source per output, no symlinks). Marker commands placed after dependency directives.", "DESIGN.md §5 C11"),
+ "C17": ("exploration", "self-observing commands (pwd -P, TXTPP_FILE, recorder shell printing argv) captured in outputs + strace execve/chdir/env monitor on CLI runs; depth 0..3 x base/cwd combinations x library/CLI x shell override x multi-line commands x exit codes; guard checks",
+         "The contract is observed where it takes effect: by the command itself and at the execve syscall.",
+         "TXTPP_FILE accepted as absolute or base-/cwd-relative designation of the source (README vs code).", "DESIGN.md §5 C17"),
+ "C18": ("exploration", "in-process fuzzing with panic hook (all threads), logical deadlock predicate from the scheduler hooks, process-death witness file; CLI option-value runs with exit-status monitor; watchdog expiry = inconclusive",
+         "Grammar-aware hostile and byte-mutated sources, include targets and leftovers x 4 modes x 0..16 threads; any panic of any thread, logical deadlock, abort or exit status outside {0,1,2} is a violation.",
+         "Commands neutralised (/bin/echo as shell); temp targets kept inside the scratch tree.", "DESIGN.md §5 C18"),
  "C06": ("exploration", "snapshot monitor (bytes, inode, sentinel mtime) around in-process verify runs on built projects: every single-point tamper class of every output must be rejected and left untouched; option mismatch / source edits judged against the real build run right after; strace write-set monitor on a CLI sample",
          "verify is executed on the real code for each tampering of each output (including dependencies and outputs of exactly 0 / 8192 / 16384 bytes) and its verdict compared with what an actual build does to the same tree; read-only-ness observed on inode/mtime and at the syscall level.",
          "Trusted: determinism of commands (the build right after defines 'up to date'); strace parser (harness/src/sys.rs).", "DESIGN.md §5 C06"),
